@@ -84,6 +84,37 @@ def check_progress(ctx, P, tx=None, ms=None):
                "the slot loop of DpMaster::transmit_telegram has a path around the loop that does not advance the cycle state "
                "(poll() can hang, e.g. when no peripheral exists at the index)", tx.loc(head))
     ctx.assume("PeripheralSet::get_next_index returns a strictly later slot or None (iterator adaptor semantics)")
+    # ---------------- a': a declined turn is over ----------------------------------------------
+    # when the peripheral at the current slot declines to transmit (its transmit handler returns Err: nothing to send, or the Offline
+    # verdict), the master leaves the function or goes round the loop only after advancing the slot - otherwise the same peripheral
+    # gets a second turn (a second, different request) within the same pass
+    marks = {}
+    nptx = 0
+    for b, c in call_sites(tx, lambda c: callee_is(c, "dp::peripheral::Peripheral::transmit_telegram")):
+        marks[(b, None)] = "ptx"
+        nptx += 1
+    for b in progress:
+        marks.setdefault((b, None), "prog")
+    ctx.anchor("calls of Peripheral::transmit_telegram in DpMaster::transmit_telegram", nptx, 1)
+    g = GuardAnalysis(tx, P, marks=marks, iter_marks=("ptx", "prog"))
+    bad = []
+    ncls = 0
+    ends = [(rb, None) for rb in tx.return_blocks] + [(src, "back") for src, head in be]
+    for b, kind in ends:
+        S = g.at(b)
+        for fs in S:
+            declined = any(k[0] == "discr" and strip_refs(k[1])[0] == "call" and M.callee_matches(strip_refs(k[1])[1], "dp::peripheral::Peripheral::transmit_telegram")
+                           and vs == ("in", frozenset(["Err"])) for k, vs in fs.items()) or \
+                any(k[0] == "discr" and show(k[1]) == "res" and vs == ("in", frozenset(["Err"])) for k, vs in fs.items())
+            if g.count_of(fs, "ptx") == {0} or not declined:
+                continue
+            ncls += 1
+            if 0 in g.count_of(fs, "prog"):
+                bad.append(M.fmt_facts(fs)[:300])
+    ctx.anchor("path classes ending a declined turn", ncls, 2)
+    ctx.ob("a.progress", "declined-turn-advances-slot", not bad,
+           "DpMaster::transmit_telegram returns (or goes round its loop) after the peripheral at the current slot declined to transmit "
+           "without advancing the cycle state: the same peripheral gets a second turn in the same pass: " + "; ".join(bad[:2]), tx.loc(0))
 
 
 def check_rest(ctx, P, tx, rx, ms):
